@@ -4,6 +4,7 @@ Engine B only: every public arithmetic operator of Op/OpSum, simplify, squeeze_i
 symbol string layer and Model.check_operator_terms are called on bounded-exhaustive inputs and compared
 with an independent exact denotation (vk/specs/opalg.py: integer 2x2 letters, dyadic-exact factors).
 """
+from vk.symx.harness import guarded
 import itertools
 from collections import OrderedDict
 from fractions import Fraction
@@ -1034,7 +1035,7 @@ def check(run):
     cases.sort(key=lambda c: order.get(c[0], 3))
     run_cases(run, worker, cases, procs=None)
     from props import C15_sym
-    C15_sym.prove(run)
+    guarded(run, C15_sym.prove)
     run.exhaustive = True
     run.extra["pool_sizes_depth_le_2"] = sizes
     run.rule = ("three universes (Pauli letters with one- and with two-component quantum numbers; boson letters incl. the symbol 'b^\\dagger + b' with "
